@@ -1,0 +1,6 @@
+//go:build !verif
+
+package zygo
+
+// verifAfterExecute is a no-op unless built with -tags verif.
+func (env *Zlisp) verifAfterExecute(instr Instruction) error { return nil }
